@@ -251,6 +251,20 @@ class World:
                 __slots__ = ('__provides__',)
             classImplements(SLP, self.ifaces[0])
             ob = SLP()
+        elif kind in ('named_none', 'named_int', 'named_like_I0'):
+            # foreign objects that do have __name__ and __module__: the
+            # comparison operators of interfaces accept them
+            class Named:
+                pass
+            ob = Named()
+            ob.__module__ = IFACE_MODULE
+            ob.__name__ = {'named_none': None, 'named_int': 5,
+                           'named_like_I0': self.ifaces[0].__name__}[kind]
+        elif kind == 'iface_noname':
+            # a name with a space and no doc string: __name__ becomes None
+            from zope.interface.interface import InterfaceClass
+            ob = InterfaceClass('no name', (self.Interface,), {},
+                                __module__=IFACE_MODULE)
         else:
             raise AssertionError(kind)
         self.odd[kind] = ob
